@@ -291,6 +291,10 @@ func init() {
 			}
 			panic("math.Abs")
 		},
+		"math.Min":     mathMinMax(true),
+		"math.Max":     mathMinMax(false),
+		"math.archMin": mathMinMax(true),
+		"math.archMax": mathMinMax(false),
 		"math.Log":   mathUF("flog", math.Log),
 		"math.Log2":  mathUF("flog2", math.Log2),
 		"math.Exp":   mathUF("fexp", math.Exp),
@@ -736,4 +740,45 @@ func (i *Interp) errorsIs(fr *frame, err, target iface, depth int) bool {
 		}
 	}
 	return false
+}
+
+// math.Min / math.Max: NaN if either operand is NaN, otherwise the smaller / larger one (the sign of
+// zero is not distinguished for symbolic operands).
+func mathMinMax(isMin bool) intrinsicFn {
+	return func(fr *frame, args []value) value {
+		i := fr.i
+		x, y := args[0], args[1]
+		xf, xc := x.(float64)
+		yf, yc := y.(float64)
+		if xc && yc {
+			if isMin {
+				return math.Min(xf, yf)
+			}
+			return math.Max(xf, yf)
+		}
+		if (xc && math.IsNaN(xf)) || (yc && math.IsNaN(yf)) {
+			return math.NaN()
+		}
+		op := token.LSS
+		if !isMin {
+			op = token.GTR
+		}
+		c := i.boolTerm(i.binop(op, nil, x, y))
+		r, ok := i.iteValue(c, x, y)
+		if !ok {
+			panic(i.unsupported("math.Min/Max operands"))
+		}
+		// NaN propagation for FP-sorted operands
+		for _, o := range []value{x, y} {
+			if s, ok := o.(sym); ok && s.t.Sort.K != smt.KInt {
+				nan := i.ctx.FPPred("fp.isNaN", i.fpTerm(o))
+				r2, ok := i.iteValue(nan, math.NaN(), r)
+				if !ok {
+					panic(i.unsupported("math.Min/Max NaN merge"))
+				}
+				r = r2
+			}
+		}
+		return r
+	}
 }
